@@ -91,7 +91,7 @@ def canon(path):
 def contraction_chain(t, ne, min_interfaces=3):
     """True iff the mesh contains a cluster of `min_interfaces` or more two-point BORDER interfaces that would be contracted
     (both ends in fewer than three cells, fewer than two cells in common), or a closed ring of them.  Two such interfaces
-    belong to one cluster when they share a vertex or when ONE two-point interface of any kind joins an end of the one to an
+    belong to one cluster when they share a vertex or when ONE interface of any kind and length joins an end of the one to an
     end of the other (the contractions are done one after the other on stale neighbourhood information).  Clusters of two
     (the tops of two neighbouring cells) are contracted correctly by the package and are no excuse for anything."""
     two = [tuple(vp) for vp, ep in t.paths if len(vp) == 2 and len(vp) <= ne and len(t.vcells[vp[0]]) < 3
@@ -100,9 +100,10 @@ def contraction_chain(t, ne, min_interfaces=3):
         return False
     links = {}
     for vp, ep in t.paths:
-        if len(vp) == 2:
-            links.setdefault(vp[0], set()).add(vp[1])
-            links.setdefault(vp[1], set()).add(vp[0])
+        # one interface of ANY length joining an end of one contracted interface to an end of another links them (thorough
+        # seed 10: contractions at both ends of a multi-point interface left its cell one vertex short)
+        links.setdefault(vp[0], set()).add(vp[-1])
+        links.setdefault(vp[-1], set()).add(vp[0])
     parent = list(range(len(two)))
 
     def find(i):
